@@ -6,6 +6,7 @@ package main
 import (
 	"fmt"
 	"math/big"
+	"go/constant"
 	"go/token"
 	"go/types"
 	"strings"
@@ -74,6 +75,18 @@ func (f *Frame) callExtern(v ssa.Value, fn *ssa.Function, argVals []ssa.Value, a
 		pos := mk(SBool, "(and (fp.isInfinite %[1]s) (fp.isPositive %[1]s))", x.S)
 		neg := mk(SBool, "(and (fp.isInfinite %[1]s) (fp.isNegative %[1]s))", x.S)
 		f.setVal(v, Or(And(Le(Zero, sg), pos), And(Le(sg, Zero), neg)))
+	case "strings.HasPrefix":
+		// exact for a constant prefix: the string is long enough and starts with those bytes
+		if c, ok := argVals[1].(*ssa.Const); ok && c.Value != nil {
+			lit := constant.StringVal(c.Value)
+			conds := []T{Le(IntLit(int64(len(lit))), App(SInt, "strlen", args[0]))}
+			for i := 0; i < len(lit); i++ {
+				conds = append(conds, Eq(App(SInt, "byteAt", args[0], IntLit(int64(i))), IntLit(int64(lit[i]))))
+			}
+			f.setVal(v, And(conds...))
+		} else {
+			f.setResults(v, mkRes())
+		}
 	case "strings.Repeat":
 		f.oblige("panic", "strings.Repeat-negative", pos, Le(Zero, args[1]))
 		f.setResults(v, mkRes())
@@ -123,6 +136,8 @@ func externDoc(name string) string {
 		return "finds the first *Error / Errors in the chain; exact when the error itself has the target type"
 	case name == "strconv.ParseInt" || name == "strconv.ParseFloat":
 		return "a successful parse fits the requested bit size; value otherwise unconstrained"
+	case name == "strings.HasPrefix":
+		return "exact for a constant prefix (length and leading bytes); unconstrained otherwise"
 	case strings.HasPrefix(name, "math.Is"):
 		return "exact IEEE-754 semantics"
 	case strings.Contains(name, "sync."):
